@@ -129,6 +129,9 @@ def run_group(g, work, spec_checks, rulelog_cls, extra_cbmc=None):
                         'clause': ctext, 'trace': pr['trace'] if pr['status'] == 'FAILURE' else None})
         res['obligations'] = obl
         # vacuity guards
+        other = [o for o in obl if o['status'] not in ('SUCCESS', 'FAILURE')]
+        if other:
+            raise C.Undecided(f'{len(other)} obligations with status {other[0]["status"]} (solver error / out of memory): ' + r['messages'][-300:])
         can = [o for o in obl if o['class'] == 'canary']
         if not can:
             raise C.Undecided('no reachability canary in this group')
